@@ -305,6 +305,12 @@ class Layer(BaseObject):
         if name in self._keys:
             self._keys.remove(name)
         if self._glyphSet is not None and name in self._glyphSet:
+            if dataOnDisk is None:
+                # the glyph was never loaded (or never written): record
+                # the state of the file that is being scheduled for deletion
+                dataOnDiskTimeStamp = self._glyphSet.getGLIFModificationTime(name)
+                if dataOnDiskTimeStamp is not None:
+                    dataOnDisk = self._glyphSet.getGLIF(name)
             self._scheduledForDeletion[name] = dict(dataOnDiskTimeStamp=dataOnDiskTimeStamp, dataOnDisk=dataOnDisk)
 
     def __len__(self):
@@ -657,7 +663,7 @@ class Layer(BaseObject):
             # what was scheduled for deletion.
             # consider this a new glyph.
             elif self._scheduledForDeletion[glyphName]["dataOnDiskTimeStamp"] != glyphSet.getGLIFModificationTime(glyphName):
-                if self._scheduledForDeletion[glyphName]["dataOnDisk"] != glyphSet.getGLIFModificationTime(glyphName):
+                if self._scheduledForDeletion[glyphName]["dataOnDisk"] != glyphSet.getGLIF(glyphName):
                     addedGlyphs.append(glyphName)
         # glyphs deleted since we started up
         deletedGlyphs = list(self._keys - set(glyphSet.keys()))
